@@ -21,7 +21,7 @@ LEVEL_TEXT = ("Theorems over Runner.v's step loop for every step list and every 
               "order, one block per scenario / outline row, each on behalf of that scenario and a subsequence (prefix) of feature "
               "background ++ rule background ++ own steps.  The model is compared with real runs "
               "on all outcome sequences up to a bound; an independent oracle replays the property text on the implementation's call log.")
-LEVEL_NOTE = "Trusted: Coq kernel, renderer/decoder. Re-run of one Scenario object is checked by oracle only (the model is stateless)."
+LEVEL_NOTE = "Trusted: Coq kernel, renderer/decoder."
 EXHAUSTIVE = True
 
 ALPHA = ["pass", "fail", "error", "pending", "undefined", "skip", "kbd", "abort"]
@@ -208,16 +208,19 @@ def impl_rerun(case):
         config.reporters = []
         runner = ModelRunner(config, features, step_registry=registry)
 
-        def before_scenario(context, scenario):
-            if hook_raises:
-                raise RuntimeError("hook")
-        runner.hooks = {"before_scenario": before_scenario}
+        which = "before_scenario" if hook_raises is True else hook_raises      # True: the historical spelling
+
+        def raising_hook(context, element):
+            if which in ("before_step", "after_step") and element.name != "step 0":
+                return
+            raise RuntimeError("hook")
+        runner.hooks = {which: raising_hook} if which else {}
         with contextlib.redirect_stdout(io.StringIO()):
             runner.run()
         sc = features[0].scenarios[0]
         return {"scenario": sc.status.name, "steps": [s.status.name for s in sc.steps], "feature": features[0].status.name}
     shared = [parse_feature(text, filename="x.feature")]
-    first = run(shared, case["first"], False)
+    first = run(shared, case["first"], case.get("hook1", False))
     second = run(shared, case["second"], case.get("hook2", False))
     fresh = run([parse_feature(text, filename="x.feature")], case["second"], case.get("hook2", False))
     return {"first": first, "second": second, "fresh": fresh}
@@ -235,6 +238,34 @@ def oracle_rerun(case, obs):
         return [("second run of the same objects gives %s, a fresh run of the same attempt gives %s (first run was %s)" % (
             obs["second"], obs["fresh"], obs["first"]), sig)]
     return []
+
+
+def rerun_suite(tier, rnd):
+    """two runs of the same Scenario object (used by C03: statuses depend only on the latest run)"""
+    thorough = tier == "thorough"
+    rer = []
+    K = ["pass", "fail", "error", "pending", "skip", "abort"]
+    for a in itertools.product(K, repeat=2):
+        for b in itertools.product(K, repeat=2):
+            rer.append({"first": list(a), "second": list(b), "hook2": False})
+    for a in itertools.product(K, repeat=2):
+        rer.append({"first": list(a), "second": ["pass", "pass"], "hook2": True})
+    if not thorough:
+        rer = rnd.sample(rer, 250)
+    hooked = []
+    for h in ("before_scenario", "after_scenario", "before_step", "after_step"):
+        for b in itertools.product(K, repeat=2):
+            hooked.append({"first": ["pass", "pass"], "second": list(b), "hook1": h, "hook2": False})
+        for a in (("fail", "pass"), ("pass", "error"), ("skip", "pass")):
+            hooked.append({"first": list(a), "second": ["pass", "pass"], "hook1": h, "hook2": False})
+            hooked.append({"first": list(a), "second": ["pass", "fail"], "hook1": h, "hook2": h})
+    if not thorough:
+        hooked = rnd.sample(hooked, 100)
+    rer += hooked
+    return {"name": "rerun", "cases": rer, "impl": impl_rerun, "oracle": oracle_rerun,
+            "nontrivial": lambda c, o: c["first"] != c["second"] or bool(c.get("hook1")),
+            "bound": "two-step scenarios, all pairs of attempts over 6 outcomes; a raising before/after scenario or step hook in "
+                     "the first and/or the second attempt"}
 
 
 def impl_flavours(case):
@@ -356,18 +387,7 @@ def suites(tier, seed):
             "histogram": rc.histogram, "shrink": rc.shrink_program, "exhaustive": True,
             "bound": "all outcome sequences over %d kinds up to length %d (x variants), random up to length 10" % (len(ALPHA), L),
             "coq": rc.COQ}
-    rer = []
-    K = ["pass", "fail", "error", "pending", "skip", "abort"]
-    for a in itertools.product(K, repeat=2):
-        for b in itertools.product(K, repeat=2):
-            rer.append({"first": list(a), "second": list(b), "hook2": False})
-    for a in itertools.product(K, repeat=2):
-        rer.append({"first": list(a), "second": ["pass", "pass"], "hook2": True})
-    if not thorough:
-        rer = rnd.sample(rer, 300)
-    rerun = {"name": "rerun", "cases": rer, "impl": impl_rerun, "oracle": oracle_rerun,
-             "nontrivial": lambda c, o: c["first"] != c["second"],
-             "bound": "two-step scenarios, all pairs of attempts over 6 outcomes, second attempt with/without failing before_scenario hook"}
+    # (the re-run suite lives in props/c03.py: "statuses depend only on the latest run" is a clause of C03)
     fl = []
     FL = ["pass", "fail", "convbad", "convok", "error"]
     for n in range(1, 4 if thorough else 3):
@@ -379,4 +399,4 @@ def suites(tier, seed):
     flavours = {"name": "flavours", "cases": fl, "impl": impl_flavours, "oracle": oracle_flavours, "exhaustive": True,
                 "nontrivial": lambda c, o: "convbad" in c["seq"],
                 "bound": "all sequences up to length %d over {pass, fail, exception, type-conversion error, converted parameter}, sync and async" % (3 if thorough else 2)}
-    return [seqs, rerun, flavours]
+    return [seqs, flavours]
